@@ -15,6 +15,46 @@ TCP = REG + ".TCPRegistryServer"
 UDP = REG + ".UDPRegistryServer"
 
 
+def _init_fields(ctx, rs):
+    """the fields RegistryServer.__init__ creates (evaluated once on a model listener): histories start from this state, so a
+    field added to the constructor (an index, a cache) is present - and judged - in every history"""
+    from .. import miniinterp as MI_
+    cached = getattr(ctx, "_regsrv_init", None)
+    if cached is not None:
+        import copy as _c
+        return _c.deepcopy(cached)
+
+    class _L:
+        mi_native = True
+
+        def getsockname(self):
+            return ("0.0.0.0", 18811)
+
+        def __deepcopy__(self, memo):
+            return self
+    st = {}
+    fi = rs.methods.get("__init__")
+    try:
+        if fi is not None:
+            noop = lambda *a, **k: None      # noqa: E731
+
+            class _Lg:
+                mi_native = True
+                debug = info = warning = warn = error = exception = staticmethod(noop)
+
+                def __deepcopy__(self, memo):
+                    return self
+            MI_.call_method(fi.node, st, [_L(), None, _Lg()], {
+                "__methods__": {n: m.node for n, m in rs.methods.items() if n != "__init__"}, "__max_iter__": 100,
+                "__global_lookup__": K.module_function_lookup(ctx, rs.module, {}, skip=("time", "brine", "socket", "sys"))})
+    except (MI_.Raised, AnalysisError):
+        st = {}
+    st = {k: v for k, v in st.items() if k not in ("sock", "logger", "port")}
+    ctx._regsrv_init = st
+    import copy as _c
+    return _c.deepcopy(st)
+
+
 def run(ctx, rep):
     rep.rule("R18.1", "nothing decoded from a datagram is operated on (method call, unpacking, iteration, formatting, command call) "
                       "outside a region whose handler catches Exception and continues the loop, unless it was type-checked first")
@@ -414,7 +454,8 @@ def run(ctx, rep):
         hooks = {"self.on_service_added": cb("added"), "self.on_service_removed": cb("removed"), "time.time": lambda: NOW}
         for lv in ("debug", "info", "warn", "warning", "error", "exception"):
             hooks["self.logger." + lv] = lambda *a: None
-        state = {"services": _copy.deepcopy(table)}
+        state = _init_fields(ctx, rs)
+        state.update({"services": _copy.deepcopy(table)})
         err = None
         try:
             MI.call_method(f.node, state, list(args), {"__calls__": hooks})
@@ -521,7 +562,8 @@ def run(ctx, rep):
             events.append((t, "data", GARBAGE, (H3, 1)))
             events.append((t, "data", ("RPYC", 17, ()), (H3, 1)))
             events.append((t, "data", ("RPYC", "NOSUCH", ()), (H3, 1)))
-        state = {"services": {}, "pruning_timeout": TMO, "active": True}
+        state = _init_fields(ctx, rs)
+        state.update({"services": {}, "pruning_timeout": TMO, "active": True})
         pos = [0]
 
         def recv():
@@ -639,7 +681,8 @@ def run(ctx, rep):
                  "self.on_service_removed": lambda n, a: fired.append(("removed", n, a))}
         for lv in ("debug", "info", "warn", "warning", "error", "exception"):
             hooks["self.logger." + lv] = lambda *a: None
-        state = {"services": {}, "pruning_timeout": TMO}
+        state = _init_fields(ctx, rs)
+        state.update({"services": {}, "pruning_timeout": TMO})
         extra = {"__calls__": hooks, "__methods__": {k: v for k, v in methods.items() if k not in ("on_service_added", "on_service_removed")}}
         extra["__global_lookup__"] = K.module_function_lookup(ctx, rs.module, extra, skip=("time", "brine", "socket", "sys"))
         ref, ref_fired = {}, []
@@ -742,6 +785,10 @@ def run(ctx, rep):
     histories["equal refresh stamps, one registration with a non-numeric port (stored as given)"] = [
         (0, "register", H1, ("foo",), 1), (0, "register", H1, ("foo",), "1x"), (0, "register", H2, ("foo",), None),
         (0, "register", H2, ("foo",), 7), (1, "query", H3, "foo"), (2, "unregister", H1, "1x"), (3, "query", H3, "foo")]
+    histories["a query between registration and keep-alive (answers are computed from the live table every time)"] = [
+        (0, "register", H1, ("foo",), 1), (2, "register", H2, ("foo",), 2), (5, "query", H3, "foo"), (15, "register", H1, ("foo",), 1),
+        (16, "query", H3, "foo"), (TMO + 1, "query", H3, "foo"), (TMO + 4, "query", H3, "foo"), (TMO + 14, "query", H3, "foo"),
+        (TMO + 16, "query", H3, "foo")]
     histories["one request naming the same service twice (case folding)"] = [
         (0, "register", H1, ("foo", "Foo", "BAR"), 1), (1, "register", H1, ("FOO", "bar"), 1), (2, "query", H2, "foo"),
         (3, "unregister", H1, 1), (4, "query", H2, "Bar")]
@@ -905,6 +952,27 @@ def _tcp_socket_model(ctx, rep):
             except MI.Raised as r_:
                 out = ("raises", r_.name)
             tracked = [k for k, v in state["_connected_sockets"].items() if v is sock2]
+            if out[0] == "raises" and out[1] != "<nontermination>" and "_work" in meths:
+                # whatever _recv raises for this client must be something the main loop survives
+                wstate = _init_fields(ctx, ctx.cls(RS))
+                wstate.update({"services": {}, "pruning_timeout": 20.0, "active": True, "sock": listener,
+                               "logger": state["logger"], "_connected_sockets": {}})
+                calls_w = []
+
+                def recv_w(exc=out[1], wstate=wstate, calls_w=calls_w):
+                    calls_w.append(1)
+                    if len(calls_w) > 1:
+                        wstate["active"] = False
+                        raise MI.Raised("socket.timeout")
+                    raise MI.Raised(exc)
+                extra_w = dict(extra)
+                extra_w["__calls__"] = dict(extra["__calls__"], **{"self._recv": recv_w, "self._send": lambda *a: None,
+                                                                    "time.time": lambda: 0.0})
+                try:
+                    MI.call_method(meths["_work"], wstate, [], extra_w)
+                except MI.Raised as r_:
+                    bad.append("%s: _recv raises %s, which the main loop does not survive (it leaves _work as %s): the registry stops "
+                               "answering everybody" % (label, out[1], r_.name))
             if out == ("raises", "<nontermination>"):
                 bad.append("%s: _recv never comes back (it keeps reading a socket that has nothing more to deliver): the registry "
                            "answers nobody from then on" % label)
